@@ -275,6 +275,36 @@ where
     st
 }
 
+
+/// `(sub-engine label recorded in the case, order key)` of the replay file, when replaying.
+pub fn replay_target(ctx: &Ctx) -> Option<(String, u64)> {
+    let p = ctx.replay.as_ref()?;
+    let txt = std::fs::read_to_string(p).ok()?;
+    let v: Value = serde_json::from_str(&txt).ok()?;
+    let sub = v.get("case").and_then(|c| c.get("sub")).and_then(|s| s.as_str()).unwrap_or("").to_string();
+    let order = v.get("order").and_then(|o| o.as_u64())?;
+    Some((sub, order))
+}
+
+/// `par_for` that, under `--replay <file>`, re-executes only the recorded index of the sub-engine whose
+/// label prefixes the recorded case's `sub` (other sub-engines run nothing).
+pub fn par_for_replayable<F>(ctx: &Ctx, label: &str, n: u64, chunk: u64, f: F) -> Stats
+where
+    F: Fn(u64, &mut Stats) + Sync,
+{
+    match replay_target(ctx) {
+        None if ctx.replay.is_some() => Stats::new(),
+        None => par_for(ctx, label, n, chunk, f),
+        Some((sub, order)) => {
+            let mut st = Stats::new();
+            if (sub.starts_with(label) || sub.is_empty()) && order < n {
+                f(order, &mut st);
+            }
+            st
+        }
+    }
+}
+
 // ------------------------------------------------------------------------------------------------
 // Panic capture
 
@@ -448,7 +478,7 @@ pub fn finish(ctx: &Ctx, level: Level, mut st: Stats) -> ! {
         }
         n_unlisted_classes += 1;
         let _ = std::fs::create_dir_all(&replay_dir);
-        let body = json!({"property": ctx.prop, "fingerprint": v.fingerprint, "message": v.message, "case": v.case,
+        let body = json!({"property": ctx.prop, "fingerprint": v.fingerprint, "message": v.message, "case": v.case, "order": v.order,
             "occurrences": st.viol_counts.get(&v.fingerprint).copied().unwrap_or(1)});
         let name = format!("{:016x}.json", fnv64(v.fingerprint.as_bytes()));
         let path = replay_dir.join(name);
@@ -532,6 +562,10 @@ pub fn finish(ctx: &Ctx, level: Level, mut st: Stats) -> ! {
     );
     for c in &st.capped {
         println!("CAP: {c}");
+    }
+    if ctx.replay.is_some() {
+        println!("replay: {} case(s) re-executed, {} violation class(es) reproduced", evaluations, n_unlisted_classes + known_hit.len());
+        std::process::exit(if n_unlisted_classes + known_hit.len() > 0 { 1 } else { 0 });
     }
     if evaluations == 0 || nontrivial < 2 {
         eprintln!("MACHINERY: vacuous run (evaluations={evaluations}, nontrivial={nontrivial})");
